@@ -1,4 +1,6 @@
 """C15 — demultiplexing puts every read into the file of its adapter."""
+from hypothesis import strategies as st
+
 from lib import cli, routing, scen
 from lib.core import Sub, Violation
 
@@ -90,7 +92,63 @@ def check_cores(sc, ctx):
         ctx.nontrivial_case({"args": args, "files": sorted(n1)})
 
 
+# ----------------------------------------------------------------- more output files than the soft open-file limit
+@st.composite
+def manyfiles_case(draw):
+    """Demultiplexing into more files than the soft limit on open files allows at once (barcode sets of hundreds
+    or thousands are common; the usual soft limit is 1024): a file for every adapter name must still be created."""
+    n = draw(st.integers(70, 110))
+    rnd = draw(st.randoms(use_true_random=False))
+    seen, barcodes = set(), []
+    while len(barcodes) < n:
+        b = "".join(rnd.choice("ACGT") for _ in range(9))
+        if b not in seen:
+            seen.add(b)
+            barcodes.append(b)
+    picks = [draw(st.integers(0, n)) for _ in range(draw(st.integers(5, 25)))]  # n = no barcode
+    return {"sub": "manyfiles", "barcodes": barcodes, "picks": picks, "paired": draw(st.booleans()),
+            "limit": draw(st.sampled_from([48, 64]))}
+
+
+def check_manyfiles(case, ctx):
+    bcs = case["barcodes"]
+    paired = case["paired"]
+    args = ["-e", "0", "--no-indels"]
+    for i, b in enumerate(bcs):
+        args += ["-g", f"bc{i}=^{b}"]
+    recs = []
+    for k, p in enumerate(case["picks"]):
+        insert = "TTGACCAGGATTCA"[: 6 + k % 8]
+        seq = (bcs[p] if p < len(bcs) else "") + insert
+        recs.append((f"r{k}x", seq, "I" * len(seq)))
+    files = {"in1.fastq": cli.fastq(recs)}
+    if paired:
+        files["in2.fastq"] = cli.fastq([(n, "ACGTACGTAC", "IIIIIIIIII") for n, _, _ in recs])
+        args += ["-o", "dm-{name}.1.fastq", "-p", "dm-{name}.2.fastq", "in1.fastq", "in2.fastq"]
+    else:
+        args += ["-o", "dm-{name}.1.fastq", "in1.fastq"]
+    r = cli.run_subprocess(args, files, timeout=180, nofile=case["limit"])
+    n_files = (len(bcs) + 1) * (2 if paired else 1)
+    if r.exit != 0:
+        raise Violation(f"demultiplexing into {n_files} files with a soft limit of {case['limit']} open files failed "
+                        f"(exit {r.exit}): {r.stderr[-400:]}", observed={"exit": r.exit}, tag="run-failed")
+    names = [f"bc{i}" for i in range(len(bcs))] + ["unknown"]
+    for nm in names:
+        for side in ((1, 2) if paired else (1,)):
+            if f"dm-{nm}.{side}.fastq" not in r.files:
+                raise Violation(f"output file dm-{nm}.{side}.fastq was not created ({len(bcs)} adapters, soft limit "
+                                f"{case['limit']})", tag="file-missing")
+    for k, p in enumerate(case["picks"]):
+        nm = f"bc{p}" if p < len(bcs) else "unknown"
+        got = [x[0].split()[0] for x in cli.parse_records(r.files[f"dm-{nm}.1.fastq"])[1]]
+        if f"r{k}x" not in got:
+            raise Violation(f"read r{k}x (barcode {nm}) is not in dm-{nm}.1.fastq", observed=got)
+    ctx.label("paired" if paired else "single")
+    ctx.nontrivial_case({"adapters": len(bcs), "files": n_files, "soft_limit": case["limit"]})
+
+
 SUBS = {
+    "manyfiles": Sub(strategy=lambda tier: manyfiles_case(), check=check_manyfiles),
     "demux": Sub(strategy=lambda tier: routing.routing_case("demux", "demux"), check=check),
     "cores": Sub(strategy=lambda tier: routing.routing_case("cores", "demux"), check=check_cores),
 }
@@ -99,6 +157,8 @@ SUBS = {
 def plan(tier):
     if tier == "quick":
         return [{"sub": "demux", "kind": "hyp", "examples": 400} for _ in range(12)] + \
-               [{"sub": "cores", "kind": "hyp", "examples": 60} for _ in range(4)]
+               [{"sub": "cores", "kind": "hyp", "examples": 60} for _ in range(4)] + \
+               [{"sub": "manyfiles", "kind": "hyp", "examples": 4} for _ in range(2)]
     return [{"sub": "demux", "kind": "hyp", "examples": 12000} for _ in range(12)] + \
-           [{"sub": "cores", "kind": "hyp", "examples": 1500} for _ in range(4)]
+           [{"sub": "cores", "kind": "hyp", "examples": 1500} for _ in range(4)] + \
+           [{"sub": "manyfiles", "kind": "hyp", "examples": 60} for _ in range(2)]
